@@ -330,6 +330,27 @@ pub fn run(ctx: &Ctx) -> i32 {
                 if mode == 1 || mode == 2 {
                     tricky_names(&mut g, &mut d);
                 }
+                // token symbols end up inside string literals of the emitted code: quotes,
+                // backslashes, braces, non-ASCII
+                if mode == 5 || mode == 6 || mode == 2 {
+                    super::c13::toughen(&mut g, &mut d);
+                    // symbols are referenced by name as well as by symbol: make sure a toughened one is used by name
+                    for r in g.rules.iter_mut() {
+                        if let Some(b) = r.body.as_mut() {
+                            fn by_name(r: &mut Regex, d: &mut Dice<'_>) {
+                                if let Regex::Tok(_, sym) = r {
+                                    if d.chance(1, 2) {
+                                        *sym = false;
+                                    }
+                                }
+                                for c in r.children_mut() {
+                                    by_name(c, d);
+                                }
+                            }
+                            by_name(b, &mut d);
+                        }
+                    }
+                }
                 let text = print(&g).text;
                 if mode == 3 || mode == 4 {
                     let (t2, name) = inject(&text, &g, d.below(INJECTIONS.len()));
